@@ -182,6 +182,13 @@ def expectFH (crystal : Option (Crystal α)) (q : Expect α) (energy debye_facto
               | none => ((0.0 : α), (0.0 : α))))
           else .fails
 
+/-- a complex-valued call succeeded with value `F` and left the caller's slot alone -/
+def Returns2 (r : M ((α × α) × Slot)) (F : α × α) (error : Slot) : Prop := r = Except.ok (F, error)
+
+/-- a complex-valued call failed: `(0, 0)` and exactly one error (valid code, non-empty message) in the caller's slot -/
+def Fails2 (r : M ((α × α) × Slot)) (error : Slot) : Prop :=
+  ∃ e : Err, e.msg ≠ "" ∧ e.code ≤ XRL_ERROR_RUNTIME ∧ r = Except.ok (((0.0 : α), (0.0 : α)), error.withErr e)
+
 end
 end Spec
 end C13
